@@ -328,3 +328,41 @@ def length_variants(text, filler="0", upto=40):
     for i in range(len(text) - 1):
         if text[i] != text[i + 1]:
             yield "swap", text[:i] + text[i + 1] + text[i] + text[i + 2:]
+
+
+# ---------------------------------------------------------------------------------------------- whole code space
+
+def ascii_equivalents(ch):
+    """ASCII letters/digits a character turns into under some Unicode mapping a library might apply (the four normal
+    forms, lower/upper/title/casefold, and their compositions with NFKC): a rewrite the statement does not allow."""
+    import unicodedata
+    out = set()
+    forms = [ch]
+    try:
+        for f in ("NFC", "NFD", "NFKC", "NFKD"):
+            forms.append(unicodedata.normalize(f, ch))
+    except Exception:  # noqa: BLE001 (lone surrogates are fine for normalize; be safe)
+        pass
+    for f in list(forms):
+        forms += [f.lower(), f.upper(), f.title(), f.casefold()]
+    try:
+        d = unicodedata.digit(ch, None)
+        if d is not None:
+            forms.append(str(d))
+    except Exception:  # noqa: BLE001
+        pass
+    for f in forms:
+        u = f.upper()
+        if len(u) == 1 and u in ALNUM and u != ch.upper():
+            out.add(u)
+        elif len(u) > 1:
+            core = "".join(c for c in u if not unicodedata.combining(c))
+            if len(core) == 1 and core in ALNUM and core != ch.upper():
+                out.add(core)
+    return sorted(out)
+
+
+def codepoint_chunks(n):
+    """The whole code space 0..0x10FFFF (surrogates included) in n contiguous ranges."""
+    step = (0x110000 + n - 1) // n
+    return [(lo, min(lo + step, 0x110000)) for lo in range(0, 0x110000, step)]
